@@ -243,3 +243,15 @@ def aggregates(body, adt_suffix, variant=None):
 def agg_field_operand(st, field):
     names = st[2][1]["fields"]
     return st[2][2][names.index(field)]
+
+
+def at_stmt(body, bb, st):
+    """Position (bb, index) of statement `st` in block bb, for flow-sensitive origin queries."""
+    for i, s in enumerate(body.stmts(bb)):
+        if s is st:
+            return (bb, i)
+    return (bb, len(body.stmts(bb)))
+
+
+def at_term(body, bb):
+    return (bb, len(body.stmts(bb)))
